@@ -44,8 +44,8 @@ static void emit_summary() {
     if (!B.active) return;
     std::sort(B.fps.begin(), B.fps.end());
     size_t nd = std::unique(B.fps.begin(), B.fps.end()) - B.fps.begin();
-    oprintf("{\"t\":\"S\",\"first\":%llu,\"next\":%llu,\"runs\":%llu,\"steps\":%llu,\"switches\":%llu,\"vtime_ns\":%ld,\"nontrivial_runs\":%llu,\"races_seen\":%llu,\"race_pcs\":[\"%llx\",\"%llx\"],\"decisions\":%llu,\"faults_on_runs\":%llu,\"wall_s\":%.3f,",
-            (unsigned long long)B.start, (unsigned long long)B.cur, (unsigned long long)B.runs, (unsigned long long)B.steps, (unsigned long long)B.switches, B.vtime, (unsigned long long)B.inter_runs,
+    oprintf("{\"t\":\"S\",\"soft_failures\":%llu,\"first\":%llu,\"next\":%llu,\"runs\":%llu,\"steps\":%llu,\"switches\":%llu,\"vtime_ns\":%ld,\"nontrivial_runs\":%llu,\"races_seen\":%llu,\"race_pcs\":[\"%llx\",\"%llx\"],\"decisions\":%llu,\"faults_on_runs\":%llu,\"wall_s\":%.3f,",
+            (unsigned long long)G.soft_total, (unsigned long long)B.start, (unsigned long long)B.cur, (unsigned long long)B.runs, (unsigned long long)B.steps, (unsigned long long)B.switches, B.vtime, (unsigned long long)B.inter_runs,
             (unsigned long long)B.races, (unsigned long long)B.race_a, (unsigned long long)B.race_b, (unsigned long long)B.decisions, (unsigned long long)B.faults_on_runs, now_s() - B.t0);
     oprintf("\"fired\":{"); for (int k = 0; k < F_NKINDS; k++) oprintf("%s\"%s\":%llu", k ? "," : "", fault_names[k], (unsigned long long)B.fired[k]);
     oprintf("},\"fired_runs\":{"); for (int k = 0; k < F_NKINDS; k++) oprintf("%s\"%s\":%llu", k ? "," : "", fault_names[k], (unsigned long long)B.fired_runs[k]);
@@ -109,7 +109,7 @@ int main(int argc, char **argv) {
         return 0;
     }
     // batch
-    B.t0 = now_s(); B.start = start; B.active = true;
+    B.t0 = now_s(); B.start = start; B.active = true; G.batch_mode = true;
     u64 s;
     for (s = start; s < start + count; s++) {
         B.cur = s;
